@@ -80,22 +80,29 @@ def fastOutputLoop (line : Bytes) (fields : List Nat) (opt : FastOpt) : List BoF
   | .filler f :: t => (Run.ok f).seq (fastOutputLoop line fields opt t)
   | .bound b :: t => (outputParts line b fields opt).seq (fastOutputLoop line fields opt t)
 
-/-- `cut_str_fast_lane` (fast_lane.rs:22) -/
-def cutStrFastLane (initialBuffer : Bytes) (opt : FastOpt) (_fields₀ : List Nat)
-    (lastInterestingField : Side) : Run × List Nat :=
+/-- `cut_str_fast_lane` (fast_lane.rs:22) without its scratch vector: the run and what is left in
+    `fields` (`none` = untouched; the function does `fields.clear()` before filling it) -/
+def cutStrFastLaneCore (initialBuffer : Bytes) (opt : FastOpt) (lastInterestingField : Side) :
+    Run × Option (List Nat) :=
   let buffer := match opt.trim with
     | some k => fastTrim initialBuffer k opt.delimiter
     | none => initialBuffer
   if buffer.isEmpty then
-    ((if !opt.onlyDelimited then Run.ok [opt.eol.byte] else Run.empty), _fields₀)
+    ((if !opt.onlyDelimited then Run.ok [opt.eol.byte] else Run.empty), none)
   else
     let (pushed, currField) := fastScan opt.delimiter lastInterestingField 0 0 buffer
     let fields := 0 :: pushed
-    if currField == 0 && opt.onlyDelimited then (Run.empty, fields)
+    if currField == 0 && opt.onlyDelimited then (Run.empty, some fields)
     else
       let fields :=
         if Side.some currField ≠ lastInterestingField then fields ++ [buffer.length + 1] else fields
-      ((fastOutputLoop buffer fields opt opt.bounds.list).seq (Run.ok [opt.eol.byte]), fields)
+      ((fastOutputLoop buffer fields opt opt.bounds.list).seq (Run.ok [opt.eol.byte]), some fields)
+
+/-- `cut_str_fast_lane` (fast_lane.rs:22) -/
+def cutStrFastLane (initialBuffer : Bytes) (opt : FastOpt) (fields₀ : List Nat)
+    (lastInterestingField : Side) : Run × List Nat :=
+  let r := cutStrFastLaneCore initialBuffer opt lastInterestingField
+  (r.1, r.2.getD fields₀)
 
 def fastRecords (opt : FastOpt) (lif : Side) : List Bytes → List Nat → Run
   | [], _ => Run.empty
